@@ -200,7 +200,10 @@ class Register:
         if start < 0 or (source_size is not None and stop > source_size):
             raise JaqalError("Index out of range.")
 
-        return len(range(start, stop, step))
+        # Same as len(range(start, stop, step)), which overflows for absurd sizes
+        if step > 0:
+            return max(0, -((start - stop) // step))
+        return max(0, -((stop - start) // -step))
 
     def resolve_qubit(self, idx, context=None):
         """
